@@ -190,6 +190,36 @@ func (t *Thread) PendingOn(ch *ChanState, send bool) bool {
 	return p.cases[0].ch == ch && p.cases[0].send == send
 }
 
+// PendingPlainRecvEmpty reports whether the thread is parked on a plain receive
+// from an open, empty channel and returns that channel.
+//
+//go:norace
+func (t *Thread) PendingPlainRecvEmpty() (*ChanState, bool) {
+	p := t.pend
+	if p == nil || p.kind != OpSelect || p.hasDefault || len(p.cases) != 1 || p.cases[0].send || p.cases[0].ch == nil {
+		return nil, false
+	}
+	c := p.cases[0].ch
+	return c, len(c.buf) == 0 && !c.Closed && !c.Eager
+}
+
+// AnyPendingSend reports whether some thread is parked on a send (plain or in a select).
+//
+//go:norace
+func (w *World) AnyPendingSend() bool {
+	for _, t := range w.Threads {
+		if t.done || t.pend == nil || t.pend.kind != OpSelect {
+			continue
+		}
+		for _, c := range t.pend.cases {
+			if c.send {
+				return true
+			}
+		}
+	}
+	return false
+}
+
 // PendingHas reports whether the pending select of the thread has a case on ch.
 //
 //go:norace
@@ -1347,6 +1377,7 @@ func (w *World) SpinCheck() string {
 //
 //go:norace
 func (w *World) Teardown() {
+	W = w
 	w.dead = true
 	for _, t := range w.Threads {
 		if !t.done {
